@@ -73,12 +73,42 @@ def _norm(e: ast.expr, loopvar: Optional[str]) -> str:
     return unparse(Ren().visit(copy.deepcopy(e)))
 
 
+def _local_partial(repo, fi, name: str):
+    """``name = partial(worker, *pos, **kw)`` defined once in the function -> (worker, pos, kw)."""
+    from ..exprs import single_defs
+
+    d = single_defs(fi.node).get(name)
+    if isinstance(d, ast.Call) and call_name(d) == "partial" and d.args and isinstance(d.args[0], ast.Name):
+        sym = repo.resolve_name(fi.module, d.args[0].id)
+        if isinstance(sym, FunctionInfo):
+            return sym, list(d.args[1:]), {k.arg: k.value for k in d.keywords if k.arg}
+    return None
+
+
 def _find_seq_call(repo, fi, stmts):
     """(worker FunctionInfo, bindings, iterable text) of the sequential branch."""
     for st in stmts:
         for n in ast.walk(st):
             if isinstance(n, (ast.ListComp, ast.GeneratorExp)) and isinstance(n.elt, ast.Call) and isinstance(n.elt.func, ast.Name):
                 sym = repo.resolve_name(fi.module, n.elt.func.id)
+                if not isinstance(sym, FunctionInfo) and len(n.generators) == 1 and not n.generators[0].ifs:
+                    lp = _local_partial(repo, fi, n.elt.func.id)
+                    if lp is not None:
+                        w, ppos, pkw = lp
+                        lv = unparse(n.generators[0].target)
+                        b = {}
+                        params = w.params
+                        for i, e in enumerate(ppos):
+                            b[params[i]] = _norm(e, None)
+                        for k, v in pkw.items():
+                            b[k] = _norm(v, None)
+                        free = [p for p in params if p not in b]
+                        for p_, e in zip(free, n.elt.args):
+                            b[p_] = _norm(e, lv)
+                        for k in n.elt.keywords:
+                            if k.arg:
+                                b[k.arg] = _norm(k.value, lv)
+                        return w, b, unparse(n.generators[0].iter), n
                 if isinstance(sym, FunctionInfo) and len(n.generators) == 1 and not n.generators[0].ifs:
                     lv = unparse(n.generators[0].target)
                     kw = {k.arg: k.value for k in n.elt.keywords if k.arg}
@@ -125,6 +155,10 @@ def _find_par_call(repo, fi, stmts):
                     kw = {k.arg: k.value for k in f.keywords if k.arg}
                     f = f.args[0]
                 sym = repo.resolve_name(fi.module, f.id) if isinstance(f, ast.Name) else None
+                if not isinstance(sym, FunctionInfo) and isinstance(f, ast.Name):
+                    lp = _local_partial(repo, fi, f.id)
+                    if lp is not None:
+                        sym, pos, kw = lp
                 if not isinstance(sym, FunctionInfo):
                     return ("unresolved", n)
                 params = sym.params
@@ -363,6 +397,7 @@ MUTANTS = [
     M("Pool branch of StringDiscretizer iterates another list", [(F_TYPE, "                        (feature, x_copy[feature], self.str_nan),\n                    )\n                    for feature in self.features", "                        (feature, x_copy[feature], self.str_nan),\n                    )\n                    for feature in self.qualitative_features")], "R-seq-par-agree", "StringDiscretizer.fit"),
     M("Pool branch reads the caller's frame instead of the copy", [(F_TYPE, "                        (feature, x_copy[feature], self.str_nan),", "                        (feature, X[feature], self.str_nan),")], "R-seq-par-agree", "StringDiscretizer.fit"),
     M("results zipped with the feature list", [(F_QUAN, "        self.values_orders.update({feature: order for (feature, order) in all_orders})", "        self.values_orders.update({feature: res[1] for feature, res in zip(self.quantitative_features, all_orders)})")], "R-pool-keyed", "consumed only", quick=True),
+    M("worker returns the bare order, results zipped with the feature list", [(F_QUAN, "    return (feature, order)\n", "    return order\n"), (F_QUAN, "        self.values_orders.update({feature: order for (feature, order) in all_orders})", "        self.values_orders.update(dict(zip(self.quantitative_features, all_orders)))")], "R-pool-keyed", "ContinuousDiscretizer.fit"),
     M("imap result kept lazy beyond the pool", [(F_QUAN, "                all_orders += pool.imap_unordered(", "                all_orders = pool.imap_unordered(")], "R-pool-keyed", "materialised"),
     M("worker caches into the shared orders", [(F_BASE, "    # feature's labels associated to each quantile\n    feature_values = values_orders[feature]\n", "    # feature's labels associated to each quantile\n    feature_values = values_orders[feature]\n    labels_per_values[feature].update({str_nan: str_nan})\n")], "R-worker-pure", quick=True),
     M("worker appends the nan modality to the shared order", [(F_BASE, "        nan_value = feature_values.get_group(str_nan)\n", "        if not feature_values.contains(str_nan):\n            feature_values.append(str_nan)\n        nan_value = feature_values.get_group(str_nan)\n")], "R-worker-pure"),
@@ -371,6 +406,7 @@ MUTANTS = [
     M("labels of one feature read with another feature's key", [(F_BASE, "    # feature's labels associated to each quantile\n    feature_values = values_orders[feature]\n", "    # feature's labels associated to each quantile\n    feature_values = values_orders[sorted(values_orders)[0]]\n")], "R-key-local", "transform_quantitative_feature"),
 ]
 BENIGN = [
+    B("per-feature call factored into one partial", [(F_QUAN, "        # storing ordering\n        all_orders = []\n", "        # storing ordering\n        all_orders = []\n        fit_one = partial(fit_feature, X=X[self.quantitative_features], q=self.q, str_nan=self.str_nan)\n"), (F_QUAN, "                fit_feature(\n                    feature, X=X[self.quantitative_features], q=self.q, str_nan=self.str_nan\n                )\n", "                fit_one(feature)\n"), (F_QUAN, "                    partial(\n                        fit_feature, X=X[self.quantitative_features], q=self.q, str_nan=self.str_nan\n                    ),\n", "                    fit_one,\n")]),
     B("sequential branch uses keywords in another order", [(F_QUAN, "                    feature, X=X[self.quantitative_features], q=self.q, str_nan=self.str_nan\n", "                    feature, str_nan=self.str_nan, q=self.q, X=X[self.quantitative_features]\n")]),
     B("sequential branch passes positionally", [(F_QUAN, "                    feature, X=X[self.quantitative_features], q=self.q, str_nan=self.str_nan\n", "                    feature, X[self.quantitative_features], self.q, self.str_nan\n")]),
     B("dispatch test inverted", [(F_TYPE, "        if self.n_jobs <= 1:\n            all_orders = [\n                fit_feature(feature, x_copy[feature], self.str_nan) for feature in self.features\n            ]\n        # asynchronous conversion each feature's value\n        else:\n", "        if self.n_jobs <= 1:\n            all_orders = [\n                fit_feature(feat, x_copy[feat], self.str_nan) for feat in self.features\n            ]\n        # asynchronous conversion each feature's value\n        else:\n")]),
